@@ -50,7 +50,7 @@ let opts_of_sexp = function
 let sep_of = function A "dot" -> Dot | A "slash" -> Slash | x -> failwith ("bad sep " ^ to_string x)
 
 let rec kind_name = function
-  | HKeyAnchor -> "keyanchor" | HKey -> "key" | HValAnchor -> "valanchor" | HVal -> "val"
+  | HKeyAnchor -> "keyanchor" | HKey -> "key" | HValAnchor -> "valanchor" | HValue -> "val"
   | HMember -> "member" | HMemberAnchor -> "memberanchor" | HYmk -> "ymk"
   | HChild k -> "child-" ^ kind_name k
 
